@@ -211,3 +211,54 @@ def expand_runs(runs, offsets):
             i += 1
         res[o] = cur
     return res
+
+
+# ----------------------------------------------------------------------------------------------
+# symbol-map op log (hook H3, `ide::symbol_map::verif_take_oplog()`) -> token form read by `compl_run symcomp`
+# (same line format as the C06/C18 groups use; the `Type` strings are irrelevant for completion and sent empty)
+
+def encode_op(line):
+    p = line.split("\t")
+    k = p[0]
+    if k == "add_record":
+        return ["AR", codes(p[1]), "C" if p[2] == "Class" else "D", p[3], p[4], p[5], p[6], p[7]]
+    if k == "add_anonymous_def":
+        return ["AAD", codes(p[1]), p[2], p[3], p[4], p[5]]
+    if k == "add_template_argument":
+        return ["ATA", codes(p[1]), "-", p[2], p[3], p[4], p[5]]
+    if k == "add_record_field":
+        return ["ARF", codes(p[1]), "-", p[2], p[3], p[4], p[5], p[6]]
+    if k == "add_variable":
+        return ["AV", codes(p[1]), "-", p[2], p[3], p[4], p[5]]
+    if k == "add_defset":
+        return ["ADS", codes(p[1]), "-", p[2], p[3], p[4], p[5]]
+    if k == "add_multiclass":
+        return ["AMC", codes(p[1]), p[2], p[3], p[4], p[5]]
+    if k == "add_defm":
+        return ["ADM", codes(p[1]), p[2], p[3], p[4], p[5], p[6]]
+    if k == "add_anonymous_defm":
+        return ["AADM", codes(p[1]), p[2], p[3], p[4], p[5]]
+    if k == "add_reference":
+        return ["REF", p[1], p[2], p[3], p[4], p[5]]
+    simple = {"record_mut": "RM", "defset_mut": "DSM", "multiclass_mut": "MCM", "defm_mut": "DMM", "record.add_parent": "RP",
+              "defset.add_def": "DAD", "multiclass.add_parent": "MP", "defm.add_parent": "DMP"}
+    if k in simple:
+        return [simple[k], p[1]]
+    named = {"record.add_template_arg": "RTA", "record.add_record_field": "RF", "multiclass.add_template_arg": "MTA"}
+    if k in named:
+        return [named[k], codes(p[1]), p[2]]
+    if k == "error":
+        return ["ERR", p[1], p[2], p[3]]
+    raise ValueError("unknown op-log line: %r" % line)
+
+
+def parse_items(part):
+    """`NONE` | `ITEMS item ..` of compl_run -> None | [[label, snippet|None, kind], ...]"""
+    part = part.strip()
+    if part == "NONE":
+        return None
+    out = []
+    for it in part.split()[1:]:
+        l, s, k = it.split("|")
+        out.append([uncodes(l), None if s == "null" else uncodes(s), k])
+    return out
